@@ -36,9 +36,9 @@ func runC03(c *Ctx, r *Rec) {
 	listF := c.fieldOfIface(cat, "collection", "ListLike")
 	var mapF *types.Var
 	if st := structOf(cat); st != nil {
-		for i := 0; i < st.NumFields(); i++ {
-			if _, ok := st.Field(i).Type().Underlying().(*types.Map); ok {
-				mapF = st.Field(i)
+		for _, f := range flatFields(cat) {
+			if _, ok := f.Type().Underlying().(*types.Map); ok {
+				mapF = f
 			}
 		}
 	}
